@@ -96,7 +96,9 @@ class _IntMeta(type):
 
 
 class sym_int(metaclass=_IntMeta):
-    pass
+    import numpy as _np
+    dtype = _np.dtype("int64")      # numpy's dtype(sym_int) / ndarray.astype(int) inside evo modules: a genuine integer dtype
+    del _np
 
 
 def sym_round(x, *a):
